@@ -233,10 +233,12 @@ func c09Objects() map[string]J {
 		"bird_2":    {"type": "object", "required": []interface{}{dp}, "properties": J{dp: J{"type": "string"}, "wings": J{"type": "integer"}, "name": J{"type": "string"}}},
 		// a name that ends in another member's name: reference matching by suffix or substring confuses the two
 		"BigCat": {"type": "object", "required": []interface{}{dp}, "properties": J{dp: J{"type": "string"}, "size": J{"type": "integer"}}},
+		// a name with a dot (namespaced schema names are common): the implicit discriminator value is the whole name
+		"zoo.Owl": {"type": "object", "required": []interface{}{dp}, "properties": J{dp: J{"type": "string"}, "hoots": J{"type": "integer"}}},
 	}
 }
 
-var c09GoType = map[string]string{"Cat": "Cat", "Dog": "Dog", "guard-dog": "GuardDog", "bird_2": "Bird2", "BigCat": "BigCat"}
+var c09GoType = map[string]string{"Cat": "Cat", "Dog": "Dog", "guard-dog": "GuardDog", "bird_2": "Bird2", "BigCat": "BigCat", "zoo.Owl": "ZooOwl"}
 
 type c09Union struct {
 	Name     string
@@ -253,9 +255,9 @@ func c09Ref(n string) string { return "#/components/schemas/" + n }
 
 func c09GenUnion(r *Rng, idx int) c09Union {
 	u := c09Union{Name: fmt.Sprintf("U%d", idx), Keyword: r.Pick([]string{"oneOf", "anyOf"})}
-	names := []string{"Cat", "Dog", "guard-dog", "bird_2", "BigCat"}
+	names := []string{"Cat", "Dog", "guard-dog", "bird_2", "BigCat", "zoo.Owl"}
 	n := 1 + r.Intn(4)
-	for _, i := range r.Perm(5)[:n] {
+	for _, i := range r.Perm(6)[:n] {
 		u.Refs = append(u.Refs, names[i])
 	}
 	if r.Chance(35) {
@@ -275,7 +277,7 @@ func c09GenUnion(r *Rng, idx int) c09Union {
 			u.Prims = append(u.Prims, []string{"string", "integer", "strings", "inlineObj"}[i])
 		}
 	}
-	keyFor := map[string]string{"Cat": "cat", "Dog": "dog", "guard-dog": "guard", "bird_2": "bird", "BigCat": "big"}
+	keyFor := map[string]string{"Cat": "cat", "Dog": "dog", "guard-dog": "guard", "bird_2": "bird", "BigCat": "big", "zoo.Owl": "owl"}
 	switch u.Disc {
 	case "explicit", "many":
 		for _, m := range u.Refs {
